@@ -33,7 +33,9 @@ class Observer:
         extras = dict(msg.extra or {})
         extras.pop("server_id", None)
         extras.pop("request_id", None)
-        ev = ("log", (msg.level.name, msg.message, {k: str(v) for k, v in extras.items()}))
+        # logs emitted by an on_cancel hook carry a marker text and are kept apart from the call's ordinary log sequence
+        ev = ("cancel-log" if str(msg.message).startswith("oncancel") else "log",
+              (msg.level.name, msg.message, {k: str(v) for k, v in extras.items()}))
         if self.cur is None:
             self.stray.append(ev)
             return
